@@ -527,7 +527,11 @@ def run(ctx):
     dumps, dumps_n = {}, {}
 
     def tlc_job(name):
-        r = core.tlc("CdefOol", cfg_text=cfg(emit=True, **SCENARIOS[name]), workers=1, timeout=1700)
+        # q_types (two typedef names + FILE) also carries the recompiler before the repair of "two
+        # typedefs of FILE" (variant filetwice: one _IO_FILE entry per typedef) as a second initial
+        # state: TLC must reject it (emit fails) while the repaired transcription satisfies the invariant
+        extra = dict(variants=("faithful", "filetwice"), probe=True) if name == "q_types" else {}
+        r = core.tlc("CdefOol", cfg_text=cfg(emit=True, **dict(SCENARIOS[name], **extra)), workers=1, timeout=1700)
         hs = sorted(set(t[0] for t in tuples(r.out, "BEH")))      # a successor generated twice is printed twice
         return name, r, [mg.hist_to_beh(tlaval.parse_value(h)) for h in hs]
 
@@ -545,7 +549,12 @@ def run(ctx):
             name, r, dump = f.result()
             ctx.add_tlc("MC_CdefOol(%s)" % name, r)
             dumps[name] = dump
-            dumps_n[name] = r.distinct
+            dumps_n[name] = r.distinct // (2 if name == "q_types" else 1)
+            if name == "q_types":
+                c2 = [t[1] for t in tuples(r.out, "CAUGHT") if core.unq(t[0]) == "filetwice"]
+                if not c2 or "emit" not in c2[0]:
+                    raise core.MachineryError("variant 'filetwice' of the model was not rejected by TLC")
+                filetwice = c2[0][:200]
         r = f_sanity.result()
         ctx.add_tlc("sanity(strict + 3 broken variants)", r, count_states=False)
         caught = {}
@@ -555,6 +564,7 @@ def run(ctx):
         for v in BROKEN:
             if v not in caught:
                 raise core.MachineryError("variant %r of the model was not rejected by TLC" % v)
+        ctx.cov["variants_caught"]["filetwice"] = filetwice
         if "lt" not in caught["strict"]:
             raise core.MachineryError("strict run does not show the list_types()/FILE divergence: %s" % caught["strict"])
     need = {"DeclTypedef", "DeclTypedefAnon", "DeclStruct", "DeclFunc", "DeclGlobal", "DeclEnum", "DeclConst", "DeclFwd"}
